@@ -242,7 +242,7 @@ func (f *fnnCtx) recvStoresFNN(fn *ssa.Function) bool {
 
 func runC18(c *Ctx) {
 	P := c.P
-	c.Explanation = "Decides: (R-NONNIL-FRESH) every value returned by New, NewSize, Clone, Intersect, Range, Keys and Values is a map allocated inside the call and provably non-nil — a make; maps.Clone(x) only under the fact x != nil; the result of a receiver-returning helper applied to such a map; or the content of a local cell that only ever receives such maps (including through (*Set).Add/AddAll, whose stores through the receiver are summarised) — and is never a parameter, so results cannot alias arguments; AddAll on a nil receiver stores a clone, not its argument. (R-NIL-LAZY) in pointer-receiver methods every update of *s is preceded on all paths by *s != nil or by storing a fresh map. Does NOT decide the set-theoretic answers of the predicates, Pop, or Slice."
+	c.Explanation = "Decides: (R-NONNIL-FRESH) every value returned by New, NewSize, Clone, Intersect, Range, Keys and Values is a map allocated inside the call and provably non-nil — a make; maps.Clone(x) only under the fact x != nil; the result of a receiver-returning helper applied to such a map; or the content of a local cell that only ever receives such maps (including through (*Set).Add/AddAll, whose stores through the receiver are summarised) — and is never a parameter, so results cannot alias arguments; AddAll on a nil receiver stores a clone, not its argument. (R-NIL-LAZY) in pointer-receiver methods every update of *s is preceded on all paths by *s != nil or by storing a fresh map. (R-LIST-WHOLE) a variadic list of items is never re-sliced to an upper bound other than its own length. Does NOT decide the set-theoretic answers of the predicates, Pop, or Slice."
 	c.rule("R-NONNIL-FRESH", 7, "returned sets are fresh, non-nil, and never a parameter; stores through a *Set receiver store fresh non-nil maps")
 	c.rule("R-CARD-SHORTCUT", 1, "a branch on len(a) vs len(b) that returns a constant answer compares two sets, never a list (repeats) with a set")
 	c.rule("R-NIL-LAZY", 2, "every map update of *s (directly or via a receiver-updating helper) is preceded on all paths by *s != nil or a store of a fresh map")
@@ -411,4 +411,64 @@ func runC18(c *Ctx) {
 			c.judge(good, "R-NIL-LAZY", fnName(fn)+":call "+cal.Name()+" on "+ksym(recv), call.Pos(), "writer helper called on a fresh non-nil map", "writer helper may receive a nil map: "+why)
 		})
 	}
+	// ---- R-LIST-WHOLE: an argument list is considered in full
+	c.rule("R-LIST-WHOLE", 3, "a variadic list parameter (items ...T) is never cut short by a re-slice whose upper bound is something other than its length: every listed item counts, however many repeat or are absent")
+	for _, fn := range P.PkgFuncs("mapset") {
+		if fn.Parent() != nil {
+			continue
+		}
+		for pi, prm := range fn.Params {
+			if _, isSlice := prm.Type().Underlying().(*types.Slice); !isSlice {
+				continue
+			}
+			// the lists of items: variadic parameters (a slice that is appended to is not a list of items)
+			if !fn.Signature.Variadic() || pi != len(fn.Params)-1 {
+				continue
+			}
+			var cut *ssa.Slice
+			seen := map[ssa.Value]bool{}
+			var walk func(v ssa.Value)
+			walk = func(v ssa.Value) {
+				if seen[v] {
+					return
+				}
+				seen[v] = true
+				for _, r := range referrersOf(v) {
+					switch x := r.(type) {
+					case *ssa.Slice:
+						if x.X != v {
+							continue
+						}
+						whole := x.High == nil
+						if ln, ok := isBuiltinCall(x.High, "len"); ok && ln.Call.Args[0] == v {
+							whole = true
+						}
+						if !whole && cut == nil {
+							cut = x
+						}
+					case *ssa.Phi:
+						walk(x)
+					case *ssa.Store:
+						// spilled into a cell captured by a closure: follow the loads
+						if al, ok := x.Addr.(*ssa.Alloc); ok && x.Val == v {
+							for _, r2 := range referrersOf(al) {
+								if ld, ok := r2.(*ssa.UnOp); ok && ld.Op == token.MUL {
+									walk(ld)
+								}
+							}
+						}
+					}
+				}
+			}
+			walk(prm)
+			c.sawFn(fnName(fn))
+			key := fmt.Sprintf("%s:list %s", fnName(fn), prm.Name())
+			if cut != nil {
+				c.bad("R-LIST-WHOLE", key, cut.Pos(), fmt.Sprintf("the list %s is cut to %s before it is processed: items beyond that point are ignored although the ones before may be repeats or absent from the set", prm.Name(), ksym(cut.High)))
+			} else {
+				c.ok("R-LIST-WHOLE", key, fn.Pos(), "never cut short")
+			}
+		}
+	}
+
 }
